@@ -17,7 +17,7 @@
              tok = (sender sender's-peer sender's-c) of the token that arrived
              on it, () if none did (tokens are sent by parties with status 0) *)
 From Coq Require Import ZArith Arith List Bool.
-From Mpc Require Import Base.Sx Proto.Mesh.
+From Mpc Require Import Base.Sx Proto.Mesh Proto.MeshWire.
 Import ListNotations.
 Open Scope nat_scope.
 
@@ -67,7 +67,26 @@ Definition party_sx (k : nat) (st : state) (i : nat) : sx :=
       tab_sx k i (p_peers p) (p_conns p);
       if ok then pings_sx k st i else SL []].
 
+(* wire cases (Proto/MeshWire.v): input = (0 n k self addr netinfo (in ...)):
+   ONE real party [self] of an n-party, k-connection mesh among peers scripted by
+   the harness over raw TCP; addr = its own address, netinfo = the bytes the
+   scripted leader answers (() for self = 0), in = the bytes the harness writes
+   on the i-th connection it opens to the party's listener.
+   output = (status hello0 ((c target bytes) ...) ((peer bytes) ...)): Connect's
+   status, the first bytes the party wrote on its Join link, for every dial it
+   made the connection id, the dialled party and the first bytes written, and
+   (leader) the network info received by every scripted peer. *)
+Definition run_wire (inp : sx) : sx :=
+  let n := getnat (nthx 1 inp) in
+  let k := getnat (nthx 2 inp) in
+  let self := getnat (nthx 3 inp) in
+  let o := wire_party n k self (getLN (nthx 4 inp)) (getLN (nthx 5 inp)) (map getLN (getL (nthx 6 inp))) in
+  SL [ofnat (w_status o); ofLN (w_hello0 o);
+      SL (map (fun d => SL [ofnat (fst (fst d)); ofnat (snd (fst d)); ofLN (snd d)]) (w_dials o));
+      SL (map (fun p => SL [ofnat (fst p); ofLN (snd p)]) (w_infos o))].
+
 Definition run_c19 (inp : sx) : sx :=
+  if getnat (nthx 0 inp) =? 0 then run_wire inp else
   let n := getnat (nthx 0 inp) in
   let k := getnat (nthx 1 inp) in
   let order := getLnat (nthx 2 inp) in
